@@ -11,7 +11,12 @@ positive statements for two defects repaired in /repo (varsize_toplevel_cdata_li
 zero_size_open_array_items_take_no_space) and the two statements about the code as it is (finding
 classes): varsize_struct_as_array_item_overflows, packed_bitfield_unit_overruns.
 
-Tie to the code: random aggregate types are declared through the real cdef parser; their
+Tie to the code: (1) translate/init_exprs.py regenerates Generated/InitExprs.lean -- the size expression,
+overflow test and update of add_varsize_length, the bytes length and negative-length test of
+get_new_array_length, direct_newp's unknown-size test, char doubling, pre-pass guard, open-array size and
+overflow test, convert_array_from_object's too-many and add-NUL tests, direct_sizeof_cdata's rules --
+from which Model/Init.lean is built; Proofs/Init.lean shows these equal the reference forms the theorems
+are about, so a changed C expression is re-checked by the kernel.  (2) random aggregate types are declared through the real cdef parser; their
 layout (offsets, sizes, bit positions, BF_IGNORE_IN_CTOR flags) is read back from
 `ffi.typeof(T).fields` and sent, with a random nested initialiser, to the Lean driver.  The
 real implementation is observed on five routes that must agree (in this order, so that a wrong
@@ -53,7 +58,8 @@ MANIFEST = {
             "memory-unsafe inputs of the real code (arrays of var-sized structs given array data; packed bit-fields "
             "whose storage unit passes the end of the struct) are finding classes, proved to fail in the model and "
             "excluded from the memory-safety theorem by hypothesis.",
-    "technique": "Lean 4 proof (mutual structural induction over initialisers; conversion = execution of a store list) + "
+    "technique": "Lean 4 proof (mutual structural induction over initialisers; conversion = execution of a store list; size "
+                 "expressions and tests regenerated from _cffi_backend.c on every run) + "
                  "differential correspondence of four real code paths, a Python byte oracle and the model driver",
 }
 
@@ -77,6 +83,15 @@ CLASSES = {
     CLS_D: lambda case: bool(case.get("flags", {}).get("bitfield_overrun")),
     CLS_B: lambda case: bool(case.get("flags", {}).get("oracle_oob")) and not case.get("flags", {}).get("bitfield_overrun"),
 }
+
+def translators(ctx):
+    """Re-extract the size expressions of add_varsize_length, get_new_array_length, direct_newp,
+    convert_array_from_object and direct_sizeof_cdata into Generated/InitExprs.lean (raises when an
+    extraction point is missing or reshaped)."""
+    sys.path.insert(0, os.path.join(common.VERIF, "translate"))
+    import init_exprs
+    return [init_exprs.translator]
+
 
 LIMIT = 1 << 47
 SLACK = 64
